@@ -16,7 +16,7 @@ EXTENDS Naturals, Sequences, FiniteSets, TLC
 
 CONSTANTS MaxDepth, MaxMembers
 \* field classes of the schema: a message type whose fields cover every shape
-Classes == {"scalar", "msg", "rep_scalar", "rep_msg", "map_scalar", "map_msg", "unknown"}
+Classes == {"scalar", "msg", "rep_packed", "rep_unpacked", "rep_msg", "map_scalar", "map_msg", "unknown"}
 
 VARIABLES doc,      \* environment: stack of JSON contexts of the document being read
           expect,   \* environment: what the document may produce next ("member" | "value:<class>" | "skipend:obj" | "skipend:arr" | "done")
@@ -34,72 +34,71 @@ DCtx(k, elem, n) == [k |-> k, elem |-> elem, n |-> n]
 Init == /\ doc = <<>> /\ expect = "start" /\ stk = <<Frame("root", FALSE, "")>> /\ pending = "none" /\ inskip = FALSE
         /\ opened = <<>> /\ err = "" /\ cb = "init"
 
-\* ---- visitor reactions (deterministic functions of the visitor state) ----
+\* ---- visitor reactions: pure functions of the visitor state vs = [stk, pending, inskip, opened, err, first] ----
+\* (first = no callback has been seen yet: the root object's OnObjectBegin)
+VS(s, p, k, o, e, f) == [stk |-> s, pending |-> p, inskip |-> k, opened |-> o, err |-> e, first |-> f]
+Fail(vs, e) == [vs EXCEPT !.err = e, !.first = FALSE]
+TopOf(vs) == vs.stk[Len(vs.stk)]
 \* onValueEnd of the implementation
-ValueEnd(s, p, op) ==
-  IF Len(s) = 1 /\ p = "none" THEN [stk |-> s, pending |-> p, opened |-> op, err |-> ""]
+ValueEnd(vs) ==
+  LET s == vs.stk  p == vs.pending  op == vs.opened IN
+  IF Len(s) = 1 /\ p = "none" THEN vs
   ELSE IF p # "none" THEN
-       (IF s[Len(s)].typ = "pair" THEN [stk |-> Pop(s), pending |-> "none", opened |-> Pop(op), err |-> IF op = <<>> THEN "finish-without-open" ELSE ""]
-        ELSE [stk |-> s, pending |-> "none", opened |-> op, err |-> ""])
+       (IF s[Len(s)].typ = "pair" THEN (IF op = <<>> THEN Fail(vs, "finish-without-open") ELSE [vs EXCEPT !.stk = Pop(s), !.pending = "none", !.opened = Pop(op)])
+        ELSE [vs EXCEPT !.pending = "none"])
   ELSE IF s[Len(s)].typ = "obj" THEN
        LET s1 == Pop(s) IN
-       IF s1[Len(s1)].typ = "pair" THEN [stk |-> Pop(s1), pending |-> "none", opened |-> Pop(op), err |-> IF op = <<>> THEN "finish-without-open" ELSE ""]
-       ELSE [stk |-> s1, pending |-> "none", opened |-> op, err |-> ""]
-  ELSE IF s[Len(s)].typ \in {"arr", "map"} THEN [stk |-> Pop(s), pending |-> "none", opened |-> op, err |-> ""]
-  ELSE [stk |-> s, pending |-> p, opened |-> op, err |-> "dismatched-value-end"]
-Apply(r) == stk' = r.stk /\ pending' = r.pending /\ opened' = r.opened /\ err' = r.err
-
-VOnScalar ==
-  IF inskip THEN inskip' = FALSE /\ UNCHANGED <<stk, pending, opened, err>>
-  ELSE LET cls == IF pending # "none" THEN pending ELSE IF Top.typ = "arr" THEN Top.elem ELSE "bad" IN
-       IF cls # "scalar" THEN err' = "scalar-for-" \o cls /\ UNCHANGED <<stk, pending, opened, inskip>>
-       ELSE /\ UNCHANGED inskip
-            /\ IF pending # "none" THEN Apply(ValueEnd(stk, pending, opened)) ELSE UNCHANGED <<stk, pending, opened, err>>
-VOnNull ==
-  IF inskip THEN inskip' = FALSE /\ UNCHANGED <<stk, pending, opened, err>>
-  ELSE IF pending = "none" THEN err' = "unexpected-null" /\ UNCHANGED <<stk, pending, opened, inskip>>
-  ELSE /\ pending' = "none" /\ UNCHANGED <<inskip, err>>
-       /\ IF Top.typ = "pair" THEN stk' = Pop(stk) /\ opened' = Pop(opened)       \* the pair header is dropped
-          ELSE UNCHANGED <<stk, opened>>
-\* returns whether the object is skipped
-VOnObjBegin ==
-  IF inskip THEN UNCHANGED <<stk, pending, opened, err, inskip>>                 \* VisitOPSkip: OnObjectEnd follows
-  ELSE LET cls == IF pending # "none" THEN pending ELSE IF Top.typ = "arr" THEN (IF Top.elem = "msg" THEN "msg" ELSE "bad") ELSE "root" IN
-       IF cls = "root" THEN (IF Len(stk) = 1 /\ cb = "init" THEN UNCHANGED <<stk, pending, opened, err, inskip>>
-                             ELSE err' = "unexpected-object" /\ UNCHANGED <<stk, pending, opened, inskip>>)
-       ELSE IF cls \in {"map_scalar", "map_msg"} THEN
-            /\ stk' = Append(stk, Frame("map", FALSE, IF cls = "map_msg" THEN "msg" ELSE "scalar")) /\ pending' = "none" /\ UNCHANGED <<opened, err, inskip>>
-       ELSE IF cls = "msg" THEN
-            /\ stk' = Append(stk, Frame("obj", TRUE, "")) /\ opened' = Append(opened, Len(stk) + 1) /\ pending' = "none" /\ UNCHANGED <<err, inskip>>
-       ELSE err' = "object-for-" \o cls /\ UNCHANGED <<stk, pending, opened, inskip>>
-VOnKey(c) ==
-  IF Top.typ \in {"root", "obj"} THEN
-       (IF c = "unknown" THEN inskip' = TRUE /\ UNCHANGED <<stk, pending, opened, err>>
-        ELSE pending' = c /\ UNCHANGED <<stk, opened, err, inskip>>)
-  ELSE IF Top.typ = "map" THEN
-       /\ stk' = Append(stk, Frame("pair", TRUE, Top.elem)) /\ opened' = Append(opened, Len(stk) + 1)
-       /\ pending' = Top.elem /\ UNCHANGED <<err, inskip>>
-  ELSE err' = "key-in-" \o Top.typ /\ UNCHANGED <<stk, pending, opened, inskip>>
-VOnObjEnd ==
-  IF inskip THEN inskip' = FALSE /\ UNCHANGED <<stk, pending, opened, err>>
-  ELSE /\ UNCHANGED inskip
-       /\ LET op1 == IF Top.open THEN Pop(opened) ELSE opened
-              bad == Top.open /\ (opened = <<>> \/ opened[Len(opened)] # Len(stk)) IN
-          IF bad THEN err' = "finish-not-lifo" /\ UNCHANGED <<stk, pending, opened>>
-          ELSE Apply(ValueEnd(stk, pending, op1))
-VOnArrBegin ==
-  IF inskip THEN UNCHANGED <<stk, pending, opened, err, inskip>>
-  ELSE IF pending \notin {"rep_scalar", "rep_msg"} THEN err' = "array-for-" \o pending /\ UNCHANGED <<stk, pending, opened, inskip>>
-  ELSE /\ stk' = Append(stk, Frame("arr", pending = "rep_scalar", IF pending = "rep_msg" THEN "msg" ELSE "scalar"))
-       /\ opened' = IF pending = "rep_scalar" THEN Append(opened, Len(stk) + 1) ELSE opened
-       /\ pending' = "none" /\ UNCHANGED <<err, inskip>>
-VOnArrEnd ==
-  IF inskip THEN inskip' = FALSE /\ UNCHANGED <<stk, pending, opened, err>>
-  ELSE /\ UNCHANGED inskip
-       /\ LET op1 == IF Top.open THEN Pop(opened) ELSE opened
-              bad == Top.open /\ (opened = <<>> \/ opened[Len(opened)] # Len(stk)) IN
-          IF bad THEN err' = "finish-not-lifo" /\ UNCHANGED <<stk, pending, opened>>
-          ELSE Apply(ValueEnd(stk, pending, op1))
+       IF s1[Len(s1)].typ = "pair" THEN (IF op = <<>> THEN Fail(vs, "finish-without-open") ELSE [vs EXCEPT !.stk = Pop(s1), !.opened = Pop(op)])
+       ELSE [vs EXCEPT !.stk = s1]
+  ELSE IF s[Len(s)].typ \in {"arr", "map"} THEN [vs EXCEPT !.stk = Pop(s)]
+  ELSE Fail(vs, "dismatched-value-end")
+\* close the frame on top (OnObjectEnd / OnArrayEnd): finish its length if it has one, then onValueEnd
+CloseTop(vs) ==
+  LET t == TopOf(vs) IN
+  IF t.open /\ (vs.opened = <<>> \/ vs.opened[Len(vs.opened)] # Len(vs.stk)) THEN Fail(vs, "finish-not-lifo")
+  ELSE ValueEnd(IF t.open THEN [vs EXCEPT !.opened = Pop(@)] ELSE vs)
+React(vs0, cbk, c) ==
+  LET vs == [vs0 EXCEPT !.first = FALSE]  t == TopOf(vs0) IN
+  IF cbk = "Scalar" THEN
+     IF vs.inskip THEN [vs EXCEPT !.inskip = FALSE]
+     ELSE LET cls == IF vs.pending # "none" THEN vs.pending ELSE IF t.typ = "arr" THEN t.elem ELSE "bad" IN
+          IF cls # "scalar" THEN Fail(vs, "scalar-for-" \o cls)
+          ELSE IF vs.pending # "none" THEN ValueEnd(vs) ELSE vs
+  ELSE IF cbk = "Null" THEN
+     IF vs.inskip THEN [vs EXCEPT !.inskip = FALSE]
+     ELSE IF vs.pending = "none" THEN Fail(vs, "unexpected-null")
+     ELSE IF t.typ = "pair" THEN [vs EXCEPT !.pending = "none", !.stk = Pop(@), !.opened = Pop(@)]     \* the pair header is dropped
+     ELSE [vs EXCEPT !.pending = "none"]
+  ELSE IF cbk = "ObjBegin" THEN
+     IF vs.inskip THEN vs                                                             \* VisitOPSkip: OnObjectEnd follows
+     ELSE LET cls == IF vs.pending # "none" THEN vs.pending ELSE IF t.typ = "arr" THEN (IF t.elem = "msg" THEN "msg" ELSE "bad") ELSE "root" IN
+          IF cls = "root" THEN (IF Len(vs.stk) = 1 /\ vs0.first THEN vs ELSE Fail(vs, "unexpected-object"))
+          ELSE IF cls \in {"map_scalar", "map_msg"} THEN
+               [vs EXCEPT !.stk = Append(@, Frame("map", FALSE, IF cls = "map_msg" THEN "msg" ELSE "scalar")), !.pending = "none"]
+          ELSE IF cls = "msg" THEN [vs EXCEPT !.stk = Append(@, Frame("obj", TRUE, "")), !.opened = Append(@, Len(vs.stk) + 1), !.pending = "none"]
+          ELSE Fail(vs, "object-for-" \o cls)
+  ELSE IF cbk = "Key" THEN
+     IF t.typ \in {"root", "obj"} THEN (IF c = "unknown" THEN [vs EXCEPT !.inskip = TRUE] ELSE [vs EXCEPT !.pending = c])
+     ELSE IF t.typ = "map" THEN [vs EXCEPT !.stk = Append(@, Frame("pair", TRUE, t.elem)), !.opened = Append(@, Len(vs.stk) + 1), !.pending = t.elem]
+     ELSE Fail(vs, "key-in-" \o t.typ)
+  ELSE IF cbk = "ObjEnd" THEN (IF vs.inskip THEN [vs EXCEPT !.inskip = FALSE] ELSE CloseTop(vs))
+  ELSE IF cbk = "ArrBegin" THEN
+     IF vs.inskip THEN vs
+     ELSE IF vs.pending \notin {"rep_packed", "rep_unpacked", "rep_msg"} THEN Fail(vs, "array-for-" \o vs.pending)
+     \* only a packed list (numeric element kinds) gets a length prefix; strings, bytes and messages are written element by element
+     ELSE [vs EXCEPT !.stk = Append(@, Frame("arr", vs.pending = "rep_packed", IF vs.pending = "rep_msg" THEN "msg" ELSE "scalar")),
+                     !.opened = IF vs.pending = "rep_packed" THEN Append(@, Len(vs.stk) + 1) ELSE @, !.pending = "none"]
+  ELSE IF cbk = "ArrEnd" THEN (IF vs.inskip THEN [vs EXCEPT !.inskip = FALSE] ELSE CloseTop(vs))
+  ELSE Fail(vs, "unknown-callback")
+Cur == VS(stk, pending, inskip, opened, err, cb = "init")
+Visit(cbk, c) == LET r == React(Cur, cbk, c) IN stk' = r.stk /\ pending' = r.pending /\ inskip' = r.inskip /\ opened' = r.opened /\ err' = r.err
+VOnScalar == Visit("Scalar", "")
+VOnNull == Visit("Null", "")
+VOnObjBegin == Visit("ObjBegin", "")
+VOnKey(c) == Visit("Key", c)
+VOnObjEnd == Visit("ObjEnd", "")
+VOnArrBegin == Visit("ArrBegin", "")
+VOnArrEnd == Visit("ArrEnd", "")
 
 \* ---- the document (environment) chooses the next callback ----
 Members(n) == n < MaxMembers
@@ -116,7 +115,7 @@ Scalar == /\ \/ expect \in {"value:scalar", "value:unknown"}
           /\ cb' = "Scalar" /\ VOnScalar
           /\ doc' = IF expect = "elem" THEN [doc EXCEPT ![Len(doc)].n = @ + 1] ELSE doc
           /\ expect' = IF expect = "elem" THEN "elem" ELSE "member"
-Null == /\ expect \in {"value:scalar", "value:msg", "value:rep_scalar", "value:rep_msg", "value:map_scalar", "value:map_msg", "value:unknown"}
+Null == /\ expect \in {"value:scalar", "value:msg", "value:rep_packed", "value:rep_unpacked", "value:rep_msg", "value:map_scalar", "value:map_msg", "value:unknown"}
         /\ cb' = "Null" /\ VOnNull /\ UNCHANGED doc /\ expect' = "member"
 ObjBeginMsg == /\ \/ expect = "value:msg"
                   \/ (expect = "elem" /\ DTop.elem = "msg" /\ Members(DTop.n))
@@ -134,7 +133,7 @@ ObjEnd == /\ expect = "member" /\ DTop.k \in {"msg", "mapobj"}
           /\ cb' = "ObjEnd" /\ VOnObjEnd
           /\ doc' = Pop(doc)
           /\ expect' = IF Len(doc) = 1 THEN "done" ELSE IF doc[Len(doc) - 1].k = "arr" THEN "elem" ELSE "member"
-ArrBegin == /\ expect \in {"value:rep_scalar", "value:rep_msg"} /\ Len(doc) < MaxDepth
+ArrBegin == /\ expect \in {"value:rep_packed", "value:rep_unpacked", "value:rep_msg"} /\ Len(doc) < MaxDepth
             /\ cb' = "ArrBegin" /\ VOnArrBegin
             /\ doc' = Append(doc, DCtx("arr", IF expect = "value:rep_msg" THEN "msg" ELSE "scalar", 0)) /\ expect' = "elem"
 ArrEnd == /\ expect = "elem" /\ cb' = "ArrEnd" /\ VOnArrEnd /\ doc' = Pop(doc) /\ expect' = "member"
